@@ -76,7 +76,7 @@ class WireManagerBase(abc.ABC):
 
         # wires of other blocks at the same spot must carry the same count, too
         for wire in self.wires:
-            for coincident in wire.coincidents:
+            for coincident in wire.coincident_list:
                 if coincident.grading.count != wire.grading.count:
                     raise InconsistentGradingsError(
                         f"Inconsistent counts on coincident wires {wire} ({wire.grading.count}) "
@@ -141,7 +141,7 @@ class WirePropagateManager(WireManagerBase):
         # on coincident edges or blockMesh will whine;
         # it's better to just copy them
         for wire in self.wires:
-            for coincident in wire.coincidents:
+            for coincident in wire.coincident_list:
                 if coincident.grading.is_defined:
                     if coincident.is_aligned(wire):
                         wire.grading = coincident.grading
